@@ -62,14 +62,14 @@ def demo_cmd(d, wt):
         run = meta.get("demo_run")
         cwd = wt
         if not run:
-            mm = re.search(r"^//\s*(?:Run with\s*:\s*)?(?:cd (repo[\w./-]*) && )?(go test [^\n]*)$", head, re.M)
+            mm = re.search(r"^//\s*(?:Run(?: with)?\s*:\s*)?(?:cd (repo[\w./-]*) && )?(go test [^\n]*)$", head, re.M)
             if not mm:
                 sys.exit("cannot find run command in " + t)
             run = mm.group(2).strip()
             if mm.group(1) and mm.group(1) != "repo":
                 cwd = os.path.join(wt, mm.group(1)[len("repo/"):])
         dst = os.path.join(wt, pk, "zz_seeded_demo_test.go")
-        return (lambda: shutil.copy(t, dst)), run, cwd, (lambda: os.path.exists(dst) and os.remove(dst))
+        return (lambda: (os.makedirs(os.path.dirname(dst), exist_ok=True), shutil.copy(t, dst))), run, cwd, (lambda: os.path.exists(dst) and os.remove(dst))
     if os.path.exists(m):
         dd = os.path.join(wt, "zz_seeded_demo")
         def prep():
